@@ -213,6 +213,103 @@ fn check(c: &Case, st: &mut Stats) -> Result<(), String> {
     Ok(())
 }
 
+// --- one batch call with a generated (possibly very large) overhead -------------------------------
+
+fn strategy_batch() -> impl Strategy<Value = Case> {
+    (
+        prop_oneof![6 => 1u32..=60, 1 => 61u32..=300, 1 => Just(10u32)],
+        any::<u64>(),
+        0u8..10,
+        any::<u64>(),
+        0u8..3,
+        prop_oneof![3 => Just(1usize), 1 => Just(2usize)],
+        0u8..3,
+    )
+        .prop_map(|(k, rs, omode, seed, mode, t, backend)| {
+            let pr = rf::params(k);
+            // at least one source symbol missing, so that the answer needs the solver
+            let s = match rs % 4 {
+                0 => 0,
+                1 => k - 1,
+                _ => ((rs >> 8) % k as u64) as u32,
+            };
+            let extra = (rs >> 24) % 16;
+            let overhead = match omode {
+                0 => 0,
+                1 => 1 + (extra % 3) as u32,
+                2 => pr.h - 1 + (extra % 3) as u32,
+                3 => pr.s + pr.h + (extra % 4) as u32,
+                4 => k + (extra % 5) as u32,          // as many extra symbols as K
+                5 => 60 + extra as u32,
+                6 => 248 + extra as u32,              // across 255/256
+                7 => 500 + (extra * 20) as u32,
+                8 => 2040 + extra as u32,             // beyond 2^11; only on small blocks
+                _ => 4 * k + extra as u32,
+            };
+            let overhead = if k > 60 { overhead.min(300) } else { overhead };
+            Case { k, t, esis: build_sequence(k, s, overhead, seed, mode), backend }
+        })
+}
+
+/// One call carrying more than 2^16 distinct symbols of a small block (row counts beyond 16 bits).
+fn strategy_hugebatch() -> impl Strategy<Value = Case> {
+    (prop_oneof![4 => 1u32..=20, 1 => 21u32..=100], any::<u64>(), prop_oneof![3 => 65_300u32..=66_200, 1 => 66_000u32..=140_000], any::<u64>(), 0u8..3, 0u8..3).prop_map(
+        |(k, rs, overhead, seed, mode, backend)| {
+            let s = match rs % 3 {
+                0 => 0,
+                1 => k - 1,
+                _ => ((rs >> 8) % k as u64) as u32,
+            };
+            Case { k, t: 1, esis: build_sequence(k, s, overhead, seed, mode), backend }
+        },
+    )
+}
+
+fn check_batch(c: &Case, st: &mut Stats) -> Result<(), String> {
+    let fx = fixture(c.k, c.t);
+    let pr = fx.pr;
+    let k = c.k;
+    let cfg = block_cfg(k as usize, c.t);
+    let mut dec = SourceBlockDecoder::new(0, &cfg, (k as usize * c.t) as u64);
+    match c.backend {
+        1 => dec.verif_set_sparse_threshold(0),
+        2 => dec.verif_set_sparse_threshold(u32::MAX),
+        _ => {}
+    }
+    let mut oracle = fx.oracle.clone();
+    let mut src = 0u32;
+    for &esi in &c.esis {
+        oracle.insert(rf::enc_row(&pr, rf::esi_to_isi(&pr, esi)));
+        if esi < k {
+            src += 1;
+        }
+    }
+    let received = c.esis.len() as u32;
+    let want = src == k || oracle.full();
+    let got = dec.decode(c.esis.iter().map(|&e| packet(&fx, e)).collect::<Vec<_>>());
+    st.eval();
+    let overhead = received as i64 - k as i64;
+    st.class(match overhead {
+        i64::MIN..=3 => "overhead <= 3",
+        4..=59 => "overhead 4..59",
+        60..=247 => "overhead 60..247",
+        248..=499 => "overhead 248..499",
+        500..=59_999 => "overhead >= 500",
+        _ => "overhead >= 60000 (more than 2^16 rows)",
+    });
+    st.class_if(!want, "rank-deficient batch (decoder must say None)");
+    if src < k && received >= k {
+        st.nt(fnv_u64s(&[k as u64, c.t as u64, received as u64, crate::util::fnv_u64s(&c.esis.iter().map(|&e| e as u64).collect::<Vec<_>>())]));
+    }
+    st.sample(|| json!({"K": k, "received_in_one_call": received, "source": src, "full_rank": want}));
+    match (&got, want) {
+        (Some(bytes), true) if bytes != &fx.data => Err(format!("K={k}: a batch of {received} symbols ({src} source) returned wrong bytes")),
+        (None, true) => Err(format!("K={k} (K'={}, L={}): gave up on a decodable set: one batch of {received} distinct symbols ({src} source), rank(A) = L, yet decode() returned None", pr.kp, pr.l)),
+        (Some(_), false) => Err(format!("K={k}: answered for an undecodable set: one batch of {received} distinct symbols ({src} source), rank(A) = {} < L", oracle.rank())),
+        _ => Ok(()),
+    }
+}
+
 // --- large blocks: structured rank at selected set sizes -----------------------------------------
 
 #[derive(Debug, Clone)]
@@ -272,7 +369,15 @@ fn from_json(v: &Value) -> Case {
     Case {
         k: v["k"].as_u64().unwrap() as u32,
         t: v["t"].as_u64().unwrap() as usize,
-        esis: v["esis"].as_array().unwrap().iter().map(|x| x.as_u64().unwrap() as u32).collect(),
+        esis: {
+            let mut e: Vec<u32> = v["esis"].as_array().unwrap().iter().map(|x| x.as_u64().unwrap() as u32).collect();
+            // compact form for hand-written regression inputs: "esi_range": [first, count]
+            if let Some(r) = v.get("esi_range").and_then(|r| r.as_array()) {
+                let (a, n) = (r[0].as_u64().unwrap() as u32, r[1].as_u64().unwrap() as u32);
+                e.extend(a..a + n);
+            }
+            e
+        },
         backend: v["backend"].as_u64().unwrap_or(0) as u8,
     }
 }
@@ -301,11 +406,17 @@ fn sig(msg: &str) -> String {
 }
 
 pub fn run(ctx: &Ctx, rep: &mut Report) {
-    rep.rule = "generated arrival sequences of distinct ESIs for one block: K in 1..=60 weighted (up to 300 quick / 600 thorough), a generated number of source symbols (none, all, K-1, or uniform) plus repair ESIs from the near / uniform-24-bit / far classes, K + overhead symbols in total with overhead in {0,1,2,3} U {H-2..H+3} U {S+H} U {H+3..H+8} (the latter straddle the trigger of the binary-only fast path), in shuffled / source-first / repair-first order, decoder back-end default / sparse / dense. After EVERY packet: decode(..).is_some() <=> (all K source symbols received) or (rank of the RFC constraint matrix for the received set = L), with the rank computed by an independent incremental GF(256) elimination over reference-generated rows; Some implies the right bytes. Large blocks (K' up to 2000 quick / 10000 thorough) are checked at selected set sizes with a structured rank routine (bit-packed GF(2) elimination + GF(256) residual of the HDPC rows). Non-trivial = a sequence with a prefix of >= K distinct symbols and a source symbol missing; distinct by (K, T, sequence).".into();
+    rep.rule = "generated arrival sequences of distinct ESIs for one block: K in 1..=60 weighted (up to 300 quick / 600 thorough), a generated number of source symbols (none, all, K-1, or uniform) plus repair ESIs from the near / uniform-24-bit / far classes, K + overhead symbols in total with overhead in {0,1,2,3} U {H-2..H+3} U {S+H} U {H+3..H+8} (the latter straddle the trigger of the binary-only fast path), in shuffled / source-first / repair-first order, decoder back-end default / sparse / dense. After EVERY packet: decode(..).is_some() <=> (all K source symbols received) or (rank of the RFC constraint matrix for the received set = L), with the rank computed by an independent incremental GF(256) elimination over reference-generated rows; Some implies the right bytes. A second group hands the whole set to the decoder in ONE call, with a source symbol missing and an overhead drawn from {0, 1..3, H-1..H+1, S+H.., K.., 60.., 248..263 (across 255/256), 500..800, 2040.. , 4K..} (the large ones on K <= 60), same oracle; a third group ('hugebatch') hands 65 300..140 000 distinct symbols of a block of at most 100 symbols to the decoder in one call (more than 2^16 matrix rows). Large blocks (K' up to 2000 quick / 10000 thorough) are checked at selected set sizes with a structured rank routine (bit-packed GF(2) elimination + GF(256) residual of the HDPC rows). Non-trivial = a sequence with a prefix of >= K distinct symbols and a source symbol missing; distinct by (K, T, sequence).".into();
     rep.assumptions.push("rank oracle rows come from the reference model (trusted tables); exact incremental oracle for K <= 600, structured rank up to K' = 10000; beyond that only C01's soundness applies".into());
     let kmax = ctx.tier.pick(300u32, 600);
     let n = std::env::var("C02_N").ok().and_then(|s| s.parse().ok()).unwrap_or(ctx.tier.pick(200_000u64, 2_000_000));
     rep.absorb("prefixes", run_sharded("C02", "prefixes", ctx.seed, n, 64, move || strategy(kmax), check, to_json, signature));
+
+    let n = ctx.tier.pick(40_000u64, 600_000);
+    rep.absorb("batch", run_sharded("C02", "batch", ctx.seed, n, 64, strategy_batch, check_batch, to_json, signature));
+
+    let n = ctx.tier.pick(32u64, 600);
+    rep.absorb("hugebatch", run_sharded("C02", "hugebatch", ctx.seed, n, 16, strategy_hugebatch, check_batch, to_json, signature));
 
     // large blocks
     let mut rng = SplitMix::new(crate::util::mix(ctx.seed, 202));
@@ -354,6 +465,7 @@ pub fn run(ctx: &Ctx, rep: &mut Report) {
 pub fn replay(sub: &str, case: &Value) -> Result<(), String> {
     let mut st = Stats::new();
     match sub {
+        "batch" | "hugebatch" => check_batch(&from_json(case), &mut st),
         "large" => check_large(
             &LargeItem {
                 k: case["k"].as_u64().unwrap() as u32,
